@@ -2134,4 +2134,100 @@ theorem reachable_good {g : Graph} {d : Nat → Nat} (hr : Ranked g d) (hsym : E
   ⟨(reachable_tinv hr hsym hcls h).nodesLen, (reachable_tinv hr hsym hcls h).cls, he, (reachable_tinv hr hsym hcls h).walk w⟩
 
 
+
+/-! ## the scheduler step does not depend on the fuel beyond `bound g` -/
+
+theorem good_of_loc {g : Graph} {d : Nat → Nat} {w : Nat} {s s' : State} (a : Loc w s s')
+    (hn : s.nodes.length = g.nodes.length) (hc : ClsOK g s) (he : Explored g s) (hwalk : Walk g d (s'.wd w).path) :
+    Good g d w s' :=
+  ⟨a.nodesLen.trans hn, fun n h => by rw [a.regsLen]; exact hc n h, he.mono a.hiddenSub a.incSub, hwalk⟩
+
+theorem runLoop_fuel (g : Graph) (d : Nat → Nat) (hr : Ranked g d) (hsym : EdgeSym g) (w : Nat) (s : State)
+    (evs : List Event) (hg : Good g d w s) (fuel : Nat) (hf : bound g ≤ fuel) :
+    runLoop g w fuel s evs = runLoop g w (bound g) s evs := by
+  obtain ⟨r, h1, h2⟩ := runLoop_terminates g d hr hsym w s evs hg fuel hf
+  rw [h2, runLoop_of_runLoopO g w (bound g) s evs r h1 (bound g) (Nat.le_refl _)]
+
+theorem continueAfter_fuel (g : Graph) (d : Nat → Nat) (hr : Ranked g d) (hsym : EdgeSym g) (w n : Nat) (phase : Phase)
+    (dir : Dir) (s : State) (ok : Bool) (evs : List Event)
+    (hw : w < s.workers.length) (hlast : (s.wd w).path.getLast? = some n) (hwalk : Walk g d (s.wd w).path)
+    (hdir : dir = .down → isUp g ((s.wd w).path.getD ((s.wd w).path.length - 2) 0) n = false)
+    (hn : s.nodes.length = g.nodes.length) (hc : ClsOK g s) (he : Explored g s) (fuel : Nat) (hf : bound g ≤ fuel) :
+    resumeTest.continueAfter g w n phase dir fuel s ok evs = resumeTest.continueAfter g w n phase dir (bound g) s ok evs := by
+  unfold resumeTest.continueAfter
+  dsimp only
+  by_cases hpre : (phase == Phase.pre && ok) = true
+  · simp only [hpre, if_true]
+  · simp only [hpre, Bool.false_eq_true, if_false]
+    have a2 : LW w s (if (phase == Phase.pre) = true then
+          s.setNd n (fun d => { d with results := d.results ++ (s.wd w).preResults.drop d.results.length })
+        else s) := by
+      split
+      · exact (fr_setNd s n _).lw w
+      · exact LW.refl w s
+    have aF := a2.trans ((fr_finishTraverse _ n w).lw w)
+    generalize finishTraverse (if (phase == Phase.pre) = true then
+          s.setNd n (fun d => { d with results := d.results ++ (s.wd w).preResults.drop d.results.length })
+        else s) n w = sF at aF
+    obtain ⟨h1, h2, _⟩ := afterTraverse_any g d hr hsym sF sF w n ((s.wd w).path.getD ((s.wd w).path.length - 2) 0) dir
+      (by rw [aF.workersLen]; exact hw) (by rw [aF.own]; exact hlast) (by rw [aF.own]) (by rw [aF.own]; exact hwalk) hdir
+    generalize afterTraverse (vis g sF) sF w n ((s.wd w).path.getD ((s.wd w).path.length - 2) 0) dir = r at h1 h2
+    obtain ⟨s1, e2, fl⟩ := r
+    dsimp only at h1 h2
+    have hg1 : Good g d w s1 := good_of_loc (aF.toLoc.trans h1) hn hc he h2
+    cases fl with
+    | raise what => rfl
+    | cont => exact runLoop_fuel g d hr hsym w s1 _ hg1 fuel hf
+    | suspend => exact runLoop_fuel g d hr hsym w s1 _ hg1 fuel hf
+    | exit => exact runLoop_fuel g d hr hsym w s1 _ hg1 fuel hf
+
+theorem resumeTest_fuel (g : Graph) (d : Nat → Nat) (hr : Ranked g d) (hsym : EdgeSym g) (s : State) (w n : Nat)
+    (phase : Phase) (dir : Dir) (uid : String) (tag wait : Nat) (out : Outcome)
+    (hw : w < s.workers.length) (hlast : (s.wd w).path.getLast? = some n) (hwalk : Walk g d (s.wd w).path)
+    (hdir : dir = .down → isUp g ((s.wd w).path.getD ((s.wd w).path.length - 2) 0) n = false)
+    (hn : s.nodes.length = g.nodes.length) (hc : ClsOK g s) (he : Explored g s) (fuel : Nat) (hf : bound g ≤ fuel) :
+    resumeTest g s w n phase dir uid tag wait out fuel = resumeTest g s w n phase dir uid tag wait out (bound g) := by
+  rw [resumeTest_eq, resumeTest_eq]
+  have aA := reportOutcome_lw g s w n phase uid wait out
+  generalize (reportOutcome g s w n phase uid wait out).1 = sa at aA
+  have hwA : w < sa.workers.length := by rw [aA.workersLen]; exact hw
+  have gA : Good g d w sa := good_of_loc aA.toLoc hn hc he (by rw [aA.own]; exact hwalk)
+  split
+  · next st0 dur _ =>
+    obtain ⟨b1, b2, b3⟩ := recordResult_loc sa w n phase (if (phase == Phase.pre) = true then (s.wd w).preName else (g.node n).name) uid tag st0 dur
+    rw [aA.own] at b2 b3
+    have gB := good_of_loc (g := g) (d := d) b1 gA.nodesLen gA.cls gA.explored (by rw [b2]; exact hwalk)
+    exact continueAfter_fuel g d hr hsym w n phase dir _ _ _ (by rw [b1.workersLen]; exact hwA)
+      (by rw [b2]; exact hlast) (by rw [b2]; exact hwalk) (by rw [b2]; exact hdir) gB.nodesLen gB.cls gB.explored fuel hf
+  · split
+    · rfl
+    · split
+      · rfl
+      · exact continueAfter_fuel g d hr hsym w n phase dir sa false _ hwA
+          (by rw [aA.own]; exact hlast) (by rw [aA.own]; exact hwalk) (by rw [aA.own]; exact hdir)
+          gA.nodesLen gA.cls gA.explored fuel hf
+
+/-- **A resumed worker reaches its next suspension, the exit or an exception within `bound g` iterations**: in every
+reachable state without unexplored flat nodes, for every worker and every outcome of the awaited test, the scheduler
+step is the same for every `fuel ≥ bound g` -/
+theorem resume_fuel (g : Graph) (d : Nat → Nat) (hr : Ranked g d) (hsym : EdgeSym g) (ncls : Nat)
+    (store : List (String × List (String × String))) (hcls : ∀ n, n < g.nodes.length → (g.node n).cls < ncls)
+    (s : State) (h : ReachableF g ncls store s) (he : Explored g s) (w : Nat) (out : Outcome) (fuel : Nat)
+    (hf : bound g ≤ fuel) : resume g s w out fuel = resume g s w out (bound g) := by
+  have ht := reachable_tinv (d := d) hr hsym hcls h
+  have hg := reachable_good (d := d) hr hsym hcls h he w
+  have hp := h.pinv hsym
+  unfold resume
+  split
+  · exact runLoop_fuel g d hr hsym w s [] hg fuel hf
+  · exact runLoop_fuel g d hr hsym w s [] hg fuel hf
+  · next n phase dir uid tag wait heq =>
+    obtain ⟨_, hlast, hlen⟩ := hp.testOwn w n (by rw [heq]; rfl)
+    have hws : w < s.workers.length := lt_of_path_ne_nil s w (by intro h0; rw [h0] at hlen; simp at hlen)
+    exact resumeTest_fuel g d hr hsym s w n phase dir uid tag wait out hws hlast (ht.walk w)
+      (fun hdn => ht.dir w n phase uid tag wait (by rw [heq, hdn]) n hlast) ht.nodesLen ht.cls he fuel hf
+  · rfl
+  · rfl
+
+
 end I2N.Trav.Term
